@@ -30,7 +30,7 @@ func (s *Stream) temporality() pmetric.AggregationTemporality {
 	if !s.On("metric.temporality") {
 		return 0
 	}
-	return pmetric.AggregationTemporality(rapid.IntRange(0, 2).Draw(s.T, "at"))
+	return pmetric.AggregationTemporality(rapid.SampledFrom([]int32{0, 1, 2, 3, -1, 2147483647}).Draw(s.T, "at"))
 }
 
 // Metric fills one metric of any of the six shapes.
@@ -206,7 +206,7 @@ func (s *Stream) histogramPoint(dp pmetric.HistogramDataPoint) {
 	dp.BucketCounts().FromRaw(s.u64List("hdp.buckets"))
 	dp.ExplicitBounds().FromRaw(s.f64List("hdp.bounds"))
 	if s.On("hdp.flags") {
-		dp.SetFlags(pmetric.DataPointFlags(rapid.SampledFrom([]uint32{0, 1, 2}).Draw(s.T, "hdpfl")))
+		dp.SetFlags(pmetric.DataPointFlags(rapid.SampledFrom([]uint32{0, 1, 2, 256, 0xffffffff}).Draw(s.T, "hdpfl")))
 	}
 	s.Attrs(dp.Attributes(), "hdp.attrs")
 	s.exemplars(dp.Exemplars(), "hdp.exemplars")
@@ -239,7 +239,7 @@ func (s *Stream) expHistogramPoint(dp pmetric.ExponentialHistogramDataPoint) {
 	dp.Negative().SetOffset(s.i32Opt("ehdp.neg.offset"))
 	dp.Negative().BucketCounts().FromRaw(s.u64List("ehdp.neg.buckets"))
 	if s.On("ehdp.flags") {
-		dp.SetFlags(pmetric.DataPointFlags(rapid.SampledFrom([]uint32{0, 1, 2}).Draw(s.T, "ehdpfl")))
+		dp.SetFlags(pmetric.DataPointFlags(rapid.SampledFrom([]uint32{0, 1, 2, 256, 0xffffffff}).Draw(s.T, "ehdpfl")))
 	}
 	s.Attrs(dp.Attributes(), "ehdp.attrs")
 	s.exemplars(dp.Exemplars(), "ehdp.exemplars")
@@ -268,7 +268,7 @@ func (s *Stream) summaryPoint(dp pmetric.SummaryDataPoint) {
 		}
 	}
 	if s.On("sdp.flags") {
-		dp.SetFlags(pmetric.DataPointFlags(rapid.SampledFrom([]uint32{0, 1, 2}).Draw(s.T, "sdpfl")))
+		dp.SetFlags(pmetric.DataPointFlags(rapid.SampledFrom([]uint32{0, 1, 2, 256, 0xffffffff}).Draw(s.T, "sdpfl")))
 	}
 	s.Attrs(dp.Attributes(), "sdp.attrs")
 }
